@@ -72,6 +72,9 @@ func Parse(in *bytes.Buffer) (defs []*RouteDef, err error) {
 	var def *RouteDef
 	var i int
 	scanner := bufio.NewScanner(in)
+	// a line can be longer than bufio.MaxScanTokenSize (64KB) but never
+	// longer than the input
+	scanner.Buffer(nil, in.Len()+1)
 	for scanner.Scan() {
 		def, err = nil, nil
 		result := strings.TrimSpace(scanner.Text())
@@ -92,6 +95,9 @@ func Parse(in *bytes.Buffer) (defs []*RouteDef, err error) {
 			return nil, fmt.Errorf("line %d: %s", i, err)
 		}
 		defs = append(defs, def)
+	}
+	if err := scanner.Err(); err != nil {
+		return nil, err
 	}
 	return defs, nil
 }
